@@ -2,12 +2,12 @@ package main
 
 import (
 	"bytes"
-	"os"
-	"strings"
 	"context"
 	"crypto/ed25519"
 	"encoding/binary"
 	"fmt"
+	"os"
+	"strings"
 	"sync"
 	"time"
 
@@ -233,16 +233,16 @@ func c11Case(c *ctxT, r *gen.R, kind askWorldKind) {
 	}
 	time.Sleep(time.Millisecond)
 	type askRec struct {
-		id             uint32
-		from, to       int
-		want, buf      int
-		flags          byte
-		deadlineMs     int
-		n              int
-		err            error
-		got            []byte
-		elapsed        time.Duration
-		closedMidway   bool
+		id           uint32
+		from, to     int
+		want, buf    int
+		flags        byte
+		deadlineMs   int
+		n            int
+		err          error
+		got          []byte
+		elapsed      time.Duration
+		closedMidway bool
 	}
 	nAsks := 6 + r.Intn(14)
 	recs := make([]*askRec, nAsks)
